@@ -54,6 +54,16 @@ def get : Arr α → List Nat → Option α
     | none => none
   | _, _ => none
 
+-- map over cells
+mutual
+def mapCells (g : α → α) : Arr α → Arr α
+  | leaf a => leaf (g a)
+  | node xs => node (mapCellsL g xs)
+def mapCellsL (g : α → α) : List (Arr α) → List (Arr α)
+  | [] => []
+  | x :: xs => mapCells g x :: mapCellsL g xs
+end
+
 /-! ### orthogonal selection -/
 
 /-- `xs[i]` for every `i` of the index list (out-of-range indices are dropped; the file level
